@@ -64,9 +64,9 @@ def conditions(tier):
                     pre += ['direction in (0, 2, 5)', 'elt <= 1', 'fixed <= 1']
                     fixed.update(ndir=0)
                 else:
-                    pre.append('0 <= direction <= 5')
+                    pre += ['direction in (0, 2, 3, 5)', 'elt in (0, 1, 3, 5)']
                     sym.append(('ndir', 'int'))
-                    pre.append('0 <= ndir <= 2')
+                    pre.append('0 <= ndir <= 1')
                 conds.append(ch.Cond(
                     'h_c01', 'arrays', sym, pre=pre, fixed=fixed, timeout=T,
                     name='arrays[%s,%s,length=%s]' % (names[ck], POS[pos], ('-', 'n', 'm')[length]),
